@@ -116,3 +116,33 @@ Lemma package_clause_existing ex p : package_clause [] (Some ex) p = ex.
 Proof. reflexivity. Qed.
 Lemma package_clause_inferred p : package_clause [] None p = guess_alias p.
 Proof. reflexivity. Qed.
+
+(* ---- shared output files: agreeing identities means agreeing path AND name ---- *)
+Definition no_colon (s : rstr) : Prop := ~ In 58%N s.
+Lemma app_colon_inj (p p' n n' : rstr) : no_colon p -> no_colon p' ->
+  p ++ 58%N :: n = p' ++ 58%N :: n' -> p = p' /\ n = n'.
+Proof.
+  revert p'. induction p as [|c p IH]; intros [|c' p'] Hp Hp' H; cbn in H.
+  - injection H as ->. auto.
+  - injection H as <- _. exfalso. apply Hp'. left. reflexivity.
+  - injection H as -> _. exfalso. apply Hp. left. reflexivity.
+  - injection H as -> H. destruct (IH p') as [-> ->]; auto.
+    + intros X. apply Hp. right. exact X.
+    + intros X. apply Hp'. right. exact X.
+Qed.
+Lemma app_colon_ne (p p' n : rstr) : no_colon p' -> p' <> p ++ 58%N :: n.
+Proof. intros Hp' ->. apply Hp'. apply in_or_app. right. left. reflexivity. Qed.
+
+Theorem same_file_needs_same_package a b :
+  no_colon (fst a) -> no_colon (fst b) ->
+  same_file_accepts a b = true <-> (fst a = fst b /\ snd a = snd b).
+Proof.
+  destruct a as [pa na], b as [pb nb]. cbn [fst snd]. intros Ha Hb. unfold same_file_accepts. cbn [fst snd]. rewrite rstr_eqb_spec.
+  split.
+  - unfold package_id. destruct na as [|x na], nb as [|y nb]; intros H.
+    + auto.
+    + exfalso. exact (app_colon_ne _ _ _ Ha H).
+    + exfalso. symmetry in H. exact (app_colon_ne _ _ _ Hb H).
+    + apply app_colon_inj in H as [-> H]; auto.
+  - intros [-> ->]. reflexivity.
+Qed.
